@@ -278,6 +278,20 @@ func c12RunCheck(c c12RunCase) error {
 		if stoppedBefore && !st {
 			return fmt.Errorf("CPU was stopped by STP but the next Step reported stopped=false")
 		}
+		if stoppedBefore {
+			// only Reset ends the stop condition: an interrupt taken in between does not
+			scpu.SetInterrupt(interruptNMI)
+			_, st, p = scpu.Step()
+			if p == nil && !st {
+				return fmt.Errorf("CPU was stopped by STP; after an NMI was taken the next Step reported stopped=false although no Reset happened")
+			}
+			scpu.C.I = 0
+			scpu.TriggerIRQ()
+			_, st, p = scpu.Step()
+			if p == nil && !st {
+				return fmt.Errorf("CPU was stopped by STP; after an IRQ was taken the next Step reported stopped=false although no Reset happened")
+			}
+		}
 		if p := scpu.Reset(); p != nil {
 			return fmt.Errorf("Reset panicked: %v", p)
 		}
